@@ -1,5 +1,5 @@
 import SaramaVerif.Driver.Util
-import SaramaVerif.Model.Pipeline
+import SaramaVerif.Model.PipelineScope
 /-
   Replay of a real producer run through the composed system model `Model.Pipeline.sysStep` (trace validation of
   the model the theorems of Props/C02sys.lean are about).  The harness translates the hook events of one
@@ -24,6 +24,7 @@ structure PS where
   on : Bool := false          -- a replay is running
   failed : Bool := false
   steps : Nat := 0
+  cs : List Choice := []      -- the choices replayed so far, newest first
 
 def kindOf (t : Tok) : String :=
   match t.kind with
@@ -50,7 +51,7 @@ def headCheck (p : PS) (what : String) (q : List Tok) (id : Int) (r : Nat) (k : 
 
 def doStep (p : PS) (c : Choice) (what : String) : PS × String :=
   match sysStep p.M p.s c with
-  | some s' => ({ p with s := s', steps := p.steps + 1 }, "ok")
+  | some s' => ({ p with s := s', steps := p.steps + 1, cs := c :: p.cs }, "ok")
   | none => reject p s!"{what} is not enabled in the model state"
 
 def parseLks (s : String) : List (Option Nat) :=
@@ -70,7 +71,11 @@ def mapIds (p : PS) (l : List Int) : List Int := l.map (fun r => p.ids.getD r.to
 
 def step (p : PS) (t : List String) : PS × String :=
   match t with
-  | ["begin", m] => ({ s := {}, M := nat! m, ids := #[], on := true, failed := false, steps := 0 }, "ok")
+  | ["begin", m] => ({ s := {}, M := nat! m, ids := #[], on := true, failed := false, steps := 0, cs := [] }, "ok")
+  | ["scope"] =>
+    -- which proved scope the replayed choice sequence is in (Props.C02sys.chainScope_iff)
+    if p.failed then (p, "ok")
+    else (p, if chainScope p.cs.reverse then "chain" else "outside")
   | _ =>
     if p.failed || !p.on then (p, "ok") else
     match t with
